@@ -54,6 +54,9 @@ type LWorld struct {
 	Versions int     `json:"versions"`
 	Cyclic   bool    `json:"cyclic,omitempty"`
 	Conflict bool    `json:"conflict,omitempty"`
+	// Ghosts are directories that hold nothing but _test.go files, at the places where an imported
+	// path is searched: such an import is "no script package", and nothing in those files may run.
+	Ghosts []core.DiskFile `json:"ghosts,omitempty"`
 }
 
 var wDomains = []string{"", "", "a/", "example.com/x/", "github.com/u/r/", "deep/er/path/", "db_testutil/", "x_test/y/"}
@@ -63,8 +66,8 @@ var wFileNames = []string{"a.go", "b.go", "z.go", "0.go", "main.go", "x_1.go", "
 var wConsLead = []string{"", "", "", "\n", "\n\n", "  ", "\t", " \n\t"}
 
 // constraint expressions with their value under {goat: true, everything else false}
-var wConsTrue = []string{"goat", "!linux", "goat || linux", "goat && !ignore", "!(linux && goat)", "!ignore", "goat || ignore", "(goat)"}
-var wConsFalse = []string{"!goat", "linux", "ignore", "goat && linux", "!goat || windows", "!(goat || linux)", "linux || windows", "goat && ignore"}
+var wConsTrue = []string{"goat", "!linux", "goat || linux", "goat && !ignore", "!(linux && goat)", "!ignore", "goat || ignore", "(goat)", "!go1.21", "goat && !go1.18", "!cgo", "!gc", "goat && !unix", "!goat2", "!goa"}
+var wConsFalse = []string{"!goat", "linux", "ignore", "goat && linux", "!goat || windows", "!(goat || linux)", "linux || windows", "goat && ignore", "go1.21", "goat && go1.18", "go1.1", "cgo", "gc", "unix", "amd64 || arm64", "goat2", "Goat", "goa"}
 
 func alias(path string) string {
 	if i := strings.LastIndexByte(path, '/'); i >= 0 {
@@ -240,6 +243,36 @@ func (w *LWorld) genFile(r *core.PRNG, p *LPkg, lf *LFile, fidx, ver int, deps [
 	if r.Chance(1, 8) {
 		lines = append(lines, fmt.Sprintf(`import "nowhere/none%d"`, fidx))
 	}
+	if useHost && !decoy && r.Chance(1, 8) {
+		pi := 0
+		for i, q := range w.Pkgs {
+			if q == p {
+				pi = i
+			}
+		}
+		leaf := fmt.Sprintf("tonly%d_%d", pi, fidx)
+		path := core.Pick(r, []string{"", "example.com/g/", "t/"}) + leaf
+		lines = append(lines, fmt.Sprintf("import %q", path))
+		have := false
+		for _, g := range w.Ghosts {
+			have = have || strings.HasPrefix(g.Path, leaf+"/") || strings.Contains(g.Path, "/"+leaf+"/")
+		}
+		if !have {
+			dirs := []string{leaf}
+			if r.Chance(1, 3) {
+				dirs = []string{path}
+			}
+			if r.Chance(1, 4) {
+				dirs = append(dirs, "vendor/"+path)
+			}
+			for _, d := range dirs {
+				for k, fn := range []string{"x_test.go", "only_test.go"}[:1+r.Intn(2)] {
+					m := fmt.Sprintf("DECOY:%s/%s/top%d", d, fn, k)
+					w.Ghosts = append(w.Ghosts, core.DiskFile{Path: d + "/" + fn, Data: []byte(fmt.Sprintf("package %s\nimport \"host\"\nvar g%d = host.Mark(%q)\nfunc init() { host.Mark(%q) }\n", leaf, k, m, strings.Replace(m, "/top", "/init", 1)))})
+				}
+			}
+		}
+	}
 	depAlias := map[int]string{}
 	for _, j := range deps {
 		if _, dup := depAlias[j]; dup {
@@ -363,5 +396,6 @@ func (w *LWorld) Snapshot(v int) []core.DiskFile {
 			out = append(out, core.DiskFile{Path: p.Dir + "/" + f.Name, Data: []byte(f.Vers[vv].Data)})
 		}
 	}
+	out = append(out, w.Ghosts...)
 	return out
 }
